@@ -456,4 +456,5 @@ RULES = [
 	('07.v', 'field-versus-field comparisons (a received value against a limit, an id against an id) are the reviewed ones: same fields, same operator (rules/provenance.py)', lambda F: provenance.cmps_for_property(F, 'C07', '07.v')),
 	('07.z', 'named protocol / policy constants in this property\'s files have their reviewed values (rules/provenance.py)', lambda F: provenance.consts_for_property(F, 'C07', '07.z')),
 	('07.l', 'abandoning the claims of a commitment that is not (or no longer) confirmed also purges the still time-locked ones', r07l),
+	('07.s', 'no reviewed function gained a short-circuiting iterator adaptor (find / find_map / take / position ...: an every-element walk that stops at the first match; rules/provenance.py)', lambda F: provenance.sc_for_property(F, 'C07', '07.s')),
 ]
